@@ -13,6 +13,7 @@ import (
 	ipfslog "berty.tech/go-ipfs-log"
 	"berty.tech/go-orbit-db/baseorbitdb"
 	"berty.tech/go-orbit-db/iface"
+	"github.com/libp2p/go-libp2p/core/peer"
 	"github.com/libp2p/go-libp2p/p2p/host/eventbus"
 )
 
@@ -109,6 +110,10 @@ func (w *World) deliverPub(ctx context.Context, q int, m *Msg) {
 // deliverDC hands a direct-channel payload to q's instance and waits until it has been handled
 // (a second, empty-heads payload for the same address acts as a barrier).
 func (w *World) deliverDC(ctx context.Context, q int, from int, payload []byte) {
+	if w.stores[q] == nil {
+		w.printf("delivered %d nosub\n", q)
+		return
+	}
 	bus := w.peers[q].odb.EventBus()
 	sub, err := bus.Subscribe(new(baseorbitdb.EventExchangeHeads), eventbus.BufSize(64))
 	if err != nil {
@@ -129,15 +134,17 @@ func (w *World) deliverDC(ctx context.Context, q int, from int, payload []byte) 
 	w.net.mu.Lock()
 	em := w.net.emit[q]
 	w.net.mu.Unlock()
+	w.barrierSeq++
+	barrierID := peer.ID(fmt.Sprintf("verif-barrier-%d", w.barrierSeq))
 	_ = em.Emit(&iface.EventPubSubPayload{Payload: payload, Peer: w.net.ids[from]})
-	_ = em.Emit(&iface.EventPubSubPayload{Payload: barrierPayload(w.dbAddr), Peer: w.net.ids[from]})
+	_ = em.Emit(&iface.EventPubSubPayload{Payload: barrierPayload(w.dbAddr), Peer: barrierID})
 	ok := false
 	deadline := time.After(w.quiesceTimeout)
 loop:
 	for {
 		select {
 		case e := <-sub.Out():
-			if ev, isEv := e.(baseorbitdb.EventExchangeHeads); isEv && ev.Message != nil && len(ev.Message.Heads) == 0 {
+			if ev, isEv := e.(baseorbitdb.EventExchangeHeads); isEv && ev.Peer == barrierID {
 				ok = true
 				break loop
 			}
@@ -204,6 +211,8 @@ func (w *World) execNetOp(ctx context.Context, toks []string) (bool, error) {
 		if len(toks) > 3 && toks[3] == "dup" {
 			w.deliverDC(ctx, q, p, m.Payload)
 		}
+	case "final":
+		w.printf("final\n")
 	case "cut", "heal":
 		p, q := atoi(toks[1]), atoi(toks[2])
 		w.blocks.SetLink(p, q, toks[0] == "heal")
@@ -224,30 +233,29 @@ func (w *World) execNetOp(ctx context.Context, toks []string) (bool, error) {
 }
 
 func (w *World) restart(ctx context.Context, p int, amount int) error {
-	peer := w.peers[p]
-	idBefore := peer.odb.Identity().ID
+	pr := w.peers[p]
+	idBefore := pr.odb.Identity().ID
 	if s, ok := w.stores[p]; ok {
 		_ = s.Close()
 		w.net.closeTopic(p, w.dbAddr)
 		delete(w.stores, p)
 	}
-	_ = peer.odb.Close()
-	peer.identity = nil
-	if err := w.startInstanceFresh(peer); err != nil {
+	_ = pr.odb.Close()
+	pr.identity = nil
+	if err := w.startInstanceFresh(pr); err != nil {
 		return err
 	}
-	sameID := peer.odb.Identity().ID == idBefore
+	sameID := pr.odb.Identity().ID == idBefore
 	var s iface.Store
 	var err error
-	local := true
-	opts := &iface.CreateDBOptions{LocalOnly: &local}
+	opts := &iface.CreateDBOptions{}
 	switch w.kind {
 	case "kv":
-		s, err = peer.odb.KeyValue(ctx, w.dbAddr, opts)
+		s, err = pr.odb.KeyValue(ctx, w.dbAddr, opts)
 	case "doc":
-		s, err = peer.odb.Docs(ctx, w.dbAddr, opts)
+		s, err = pr.odb.Docs(ctx, w.dbAddr, opts)
 	case "log":
-		s, err = peer.odb.Log(ctx, w.dbAddr, opts)
+		s, err = pr.odb.Log(ctx, w.dbAddr, opts)
 	}
 	if err != nil {
 		w.printf("restarted %d openerr identity=%v\n", p, sameID)
